@@ -29,7 +29,7 @@ using sim::Rng;
 
 enum { C_PART = 0, C_QLEN, C_RECYCLE, C_ARENA };
 enum { P_LRU_SET = 0, P_LRU_MAP, P_SPLAY_SET, P_SPLAY_MULTI, P_SPLAY_SET_TRACKED, P_SPLAY_MULTI_TRACKED, P_LRU_SET_HEAP, P_LRU_MAP_HEAP, P_N };
-enum { L_PUT = 0, L_TOUCH, L_TOUCH_IF, L_GET, L_GET_TOUCH, L_ERASE, L_ERASE_IF, L_EXISTS, L_POP, L_CLEAR, L_PUT_OWN_VALUE, L_N };
+enum { L_PUT = 0, L_TOUCH, L_TOUCH_IF, L_GET, L_GET_TOUCH, L_ERASE, L_ERASE_IF, L_EXISTS, L_POP, L_CLEAR, L_PUT_OWN_VALUE, L_ERASE_BY_OWN_VALUE, L_N };
 enum { S_INSERT = 0, S_ERASE, S_EXISTS, S_FIND, S_CLEAR, S_ERASE_NODE, S_KEEP_NODE, S_ERASE_KEPT, S_N };
 const uint32_t RECYCLE[] = {0, 300, 700, 1000};
 constexpr int KEYS = 8;
@@ -90,7 +90,7 @@ void run_lru(const Workload& w, Result& res) {
     auto map = std::make_unique<Map>(sim::Alloc<std::pair<K, V> >(arena));
     std::list<int> order;                // front = most recently put or touched
     std::map<int, int> value;
-    static const char* names[] = {"put", "touch", "touch_if_exists", "get", "get_touch", "erase", "erase_if_exists", "exists", "pop", "clear", "put_own_value"};
+    static const char* names[] = {"put", "touch", "touch_if_exists", "get", "get_touch", "erase", "erase_if_exists", "exists", "pop", "clear", "put_own_value", "erase_by_own_value"};
     int step = 0;
     auto present = [&](int k) { return std::find(order.begin(), order.end(), k) != order.end(); };
     auto to_front = [&](int k) { order.remove(k); order.push_front(k); };
@@ -108,6 +108,16 @@ void run_lru(const Workload& w, Result& res) {
             // put(k, get(k)): the value argument is the reference to the stored value of the same key
             case L_PUT_OWN_VALUE:
                 if (IsMap && had) { map->put(K_(k), map->get(K_(k))); to_front(k); res.probe("put_with_reference_to_own_value"); }
+                break;
+            // erase(get(k)) where the stored value equals the key (K and V are the same type here): the key argument
+            // is a reference into the very node that is erased
+            case L_ERASE_BY_OWN_VALUE:
+                if (IsMap) {
+                    map->put(K_(k), V_(k)); to_front(k); value[k] = k;
+                    if (step % 2 == 0) map->erase(map->get(K_(k))); else map->erase_if_exists(map->get(K_(k)));
+                    order.remove(k); value.erase(k);
+                    res.probe("erase_with_reference_to_own_value");
+                }
                 break;
             case L_TOUCH: if (IsMap) map->touch(K_(k)); else set->touch(K_(k)); if (had) to_front(k); break;
             case L_TOUCH_IF: {
